@@ -838,7 +838,8 @@ func TestProp(t *testing.T) {
 			"<= 1e-9*(areaA+areaB), plus up to 96 trapezoid-centroid test points per op with a 1e-6*scale margin, plus area identities, closed rings. " +
 			"Every generated pair is counted non-trivial (each measured configuration class exercises the clipper or a shortcut); distinct by case hash; " +
 			"the class histogram gives the measured configuration and kind-pair distribution." +
-			" Round 9: 'speck' pairs (one operand 1e-7 to 1e-9 of the other's size) with probe points at the small operand's own scale.",
+			" Round 9: 'speck' pairs (one operand 1e-7 to 1e-9 of the other's size) with probe points at the small operand's own scale." +
+			" Round 11: 'island' configurations (1 in 13): a polygon with a round lake of 10-20 vertices, a second member inside the lake, sometimes a third one far away, members in any order; the other operand small, in the lake, over the island; either one as receiver.",
 		Assumptions: []string{"inputs in general position by construction/filter", "the slab integrator (vkit/slab.go) and even-odd PIP (vkit/oracle.go) are the trusted oracle"},
 		Gen:         gen,
 		Run:         run,
